@@ -42,6 +42,8 @@ def generate(seed: int, tier: str, idx: int) -> dict:
     else:
         n, p, r = s.randint(15, 60), s.randint(1, 12), s.randint(0, 7)
         lay, rev, pv = s.pick(["sparse", "dense"]), s.chance(0.3), s.chance(0.5)
+        if s.chance(0.12):
+            n, p, r = s.randint(101, 125), 1, 1       # more than a hundred files: the counter outgrows its width
     prof = dict(PROFILE, nsteps=(n, n), period=(p, p), p_reversed=1.0 if rev else 0.0,
                 p_numrec=1.0 if r else 0.0, numrec=(max(r, 1), max(r, 1)),
                 p_dense=1.0 if lay == "dense" else 0.0,
@@ -179,6 +181,8 @@ def execute(sc) -> Result:
         for r in R.recs:
             res.feed(r["time"], *[r["data"][k] for k in sorted(r["data"])])
         n, p, nr = sc["time"]["nsteps"], sc["output"]["period"], sc["output"].get("numrec", 0)
+        if nr and len(expected_records(sc)) > 100 * nr:
+            res.probes["more_than_100_files"] += 1
         if n % p:
             res.probes["nsteps_not_multiple_of_period"] += 1
         if nr and len(expected_records(sc)) % nr:
